@@ -218,10 +218,18 @@ func init() {
 		rtPkg + ".Implies": func(e *Engine, fn *ssa.Function, a []Val) Val {
 			return e.tf.Or(e.tf.Not(a[0].(*Term)), a[1].(*Term))
 		},
-		rtPkg + ".IteU64":  func(e *Engine, fn *ssa.Function, a []Val) Val { return e.tf.Ite(a[0].(*Term), a[1].(*Term), a[2].(*Term)) },
-		rtPkg + ".IteU8":   func(e *Engine, fn *ssa.Function, a []Val) Val { return e.tf.Ite(a[0].(*Term), a[1].(*Term), a[2].(*Term)) },
-		rtPkg + ".IteInt":  func(e *Engine, fn *ssa.Function, a []Val) Val { return e.tf.Ite(a[0].(*Term), a[1].(*Term), a[2].(*Term)) },
-		rtPkg + ".IteBool": func(e *Engine, fn *ssa.Function, a []Val) Val { return e.tf.Ite(a[0].(*Term), a[1].(*Term), a[2].(*Term)) },
+		rtPkg + ".IteU64": func(e *Engine, fn *ssa.Function, a []Val) Val {
+			return e.tf.Ite(a[0].(*Term), a[1].(*Term), a[2].(*Term))
+		},
+		rtPkg + ".IteU8": func(e *Engine, fn *ssa.Function, a []Val) Val {
+			return e.tf.Ite(a[0].(*Term), a[1].(*Term), a[2].(*Term))
+		},
+		rtPkg + ".IteInt": func(e *Engine, fn *ssa.Function, a []Val) Val {
+			return e.tf.Ite(a[0].(*Term), a[1].(*Term), a[2].(*Term))
+		},
+		rtPkg + ".IteBool": func(e *Engine, fn *ssa.Function, a []Val) Val {
+			return e.tf.Ite(a[0].(*Term), a[1].(*Term), a[2].(*Term))
+		},
 		rtPkg + ".BytesEq": func(e *Engine, fn *ssa.Function, a []Val) Val {
 			x, y := a[0].(Slice), a[1].(Slice)
 			if x.len != y.len {
@@ -269,12 +277,12 @@ func init() {
 		},
 
 		// ---- trusted environment
-		"runtime.KeepAlive": func(e *Engine, fn *ssa.Function, a []Val) Val { return nil },
-		"fmt.Errorf":        func(e *Engine, fn *ssa.Function, a []Val) Val { return e.opaqueError("fmt.Errorf") },
-		"fmt.Sprintf":       func(e *Engine, fn *ssa.Function, a []Val) Val { return e.stringVal("<fmt.Sprintf>") },
-		"fmt.Sprint":        func(e *Engine, fn *ssa.Function, a []Val) Val { return e.stringVal("<fmt.Sprint>") },
-		"fmt.Println":       func(e *Engine, fn *ssa.Function, a []Val) Val { return Tuple{e.K(64, 0), Iface{}} },
-		"fmt.Printf":        func(e *Engine, fn *ssa.Function, a []Val) Val { return Tuple{e.K(64, 0), Iface{}} },
+		"runtime.KeepAlive":    func(e *Engine, fn *ssa.Function, a []Val) Val { return nil },
+		"fmt.Errorf":           func(e *Engine, fn *ssa.Function, a []Val) Val { return e.opaqueError("fmt.Errorf") },
+		"fmt.Sprintf":          func(e *Engine, fn *ssa.Function, a []Val) Val { return e.stringVal("<fmt.Sprintf>") },
+		"fmt.Sprint":           func(e *Engine, fn *ssa.Function, a []Val) Val { return e.stringVal("<fmt.Sprint>") },
+		"fmt.Println":          func(e *Engine, fn *ssa.Function, a []Val) Val { return Tuple{e.K(64, 0), Iface{}} },
+		"fmt.Printf":           func(e *Engine, fn *ssa.Function, a []Val) Val { return Tuple{e.K(64, 0), Iface{}} },
 		"math.Float32frombits": func(e *Engine, fn *ssa.Function, a []Val) Val { return a[0] },
 		"math.Float64frombits": func(e *Engine, fn *ssa.Function, a []Val) Val { return a[0] },
 		"math.Float32bits":     func(e *Engine, fn *ssa.Function, a []Val) Val { return a[0] },
@@ -298,7 +306,7 @@ func init() {
 		"unicode.IsUpper": func(e *Engine, fn *ssa.Function, a []Val) Val {
 			t := a[0].(*Term)
 			if !t.IsConst() {
-				e.unsupported("unicode.IsUpper symbolic")
+				return e.callBody(fn, a, nil) // table lookup / range search on the real tables
 			}
 			return e.KB(unicode.IsUpper(rune(t.C)))
 		},
@@ -489,11 +497,11 @@ func stubIOCopy(e *Engine, fn *ssa.Function, a []Val) Val {
 	total := e.K(64, 0)
 	for iter := 0; ; iter++ {
 		if iter > 10000 {
-			panic(pathEnd{"budget", "io.Copy model"})
+			panic(pathEnd{kind: "budget", msg: "io.Copy model"})
 		}
 		e.steps += 50
 		if e.steps > e.maxSteps {
-			panic(pathEnd{"budget", "instruction budget exhausted in io.Copy model"})
+			panic(pathEnd{kind: "budget", msg: "instruction budget exhausted in io.Copy model"})
 		}
 		r := e.call(readFn, []Val{src.v, buf}, nil).(Tuple)
 		n := e.boundedIndex(e.tf.Resize(r[0].(*Term), 64, true), bufSize, true, "io.Copy read count")
@@ -528,7 +536,7 @@ func (e *Engine) hAssume(c *Term) {
 		return
 	}
 	if c.False() {
-		panic(pathEnd{"assume", "assumption is false"})
+		panic(pathEnd{kind: "assume", msg: "assumption is false"})
 	}
 	if e.replaying() || e.modelSays(c) == 1 {
 		e.assume(c)
@@ -537,7 +545,7 @@ func (e *Engine) hAssume(c *Term) {
 	r, m := e.check(c)
 	switch r {
 	case Unsat:
-		panic(pathEnd{"assume", "assumption infeasible"})
+		panic(pathEnd{kind: "assume", msg: "assumption infeasible"})
 	case Unknown:
 		e.path.Uncertain++
 		e.model = nil
@@ -562,7 +570,7 @@ func (e *Engine) hAssert(id string, c *Term) {
 	c = e.tf.simp(c)
 	if e.replaying() {
 		if c.False() {
-			panic(pathEnd{"stop", "assertion " + id + " is false (already reported)"})
+			panic(pathEnd{kind: "stop", msg: "assertion " + id + " is false (already reported)"})
 		}
 		if !c.True() {
 			e.assume(c)
@@ -578,7 +586,7 @@ func (e *Engine) hAssert(id string, c *Term) {
 	if c.False() {
 		rec.Violated++
 		e.path.addViolation(e, "assert", id, e.ensureModel(), "")
-		panic(pathEnd{"stop", "assertion " + id + " failed on the whole path"})
+		panic(pathEnd{kind: "stop", msg: "assertion " + id + " failed on the whole path"})
 	}
 	nc := e.tf.Not(c)
 	ms := e.modelSays(c)
@@ -602,7 +610,7 @@ func (e *Engine) hAssert(id string, c *Term) {
 	if ms != 1 {
 		r, m := e.check(c)
 		if r == Unsat {
-			panic(pathEnd{"stop", "assertion " + id + " cannot hold on this path"})
+			panic(pathEnd{kind: "stop", msg: "assertion " + id + " cannot hold on this path"})
 		}
 		e.model = m
 		if r == Unknown {
